@@ -168,11 +168,19 @@ func (s *Search) iterator() (it *iterator, err error) {
 func (s *Search) Delete() (err error) {
 	var it *iterator
 
-	if it, err = s.Iterator(); err != nil {
+	if s.err != nil {
+		return s.err
+	}
+
+	// resolving and deleting the objects is one critical section
+	s.db.Lock()
+	defer s.db.Unlock()
+
+	if it, err = s.iterator(); err != nil {
 		return
 	}
 
-	return s.db.DeleteObjects(it)
+	return s.db.deleteObjects(it)
 }
 
 // Reverse the order the results are collected by Collect function
